@@ -70,3 +70,25 @@ def buffers_static(src):
         out.append(dict(id='buffers/' + ident, ok=(n == 1), desc='buffer adaptor one-liner `%s` is the pointer operation the lowering (R7) substitutes for it' % ident,
                         detail='matches=%d' % n, line=None))
     return out
+
+
+REGEX_GRAMMAR = ["number(regex_digit_09)", "number(number, regex_digit_09)", "primary(regex_digit_09)", "primary(regex_primary)", "primary('(', expr, ')')",
+                 "q_expr(primary)", "q_expr(primary, '*')", "q_expr(primary, '+')", "q_expr(primary, '?')", "q_expr(primary, '{', number, '}')",
+                 "concat(q_expr)", "concat(concat, q_expr)", "alt(concat)", "alt(alt, '|', alt)", "expr(alt)"]
+
+
+def regex_grammar_static(src):
+    """C03/C17: which patterns are refused 'by the grammar' is a statement about THIS rule list (its LR(1) treatment is C01, not mechanised):
+    the rule shapes of regex_parser_object are pinned; if they change the claim no longer describes the code -> undecided (a pattern fact)."""
+    from vx.lower import match_close
+    m = re.search(r'constexpr parser regex_parser_object\(', src.text)
+    got = None
+    if m:
+        cl = match_close(src.text, m.end() - 1, '(', ')')
+        block = src.text[m.end():cl]
+        r = re.search(r'\brules\(', block)
+        if r:
+            rc = match_close(block, r.end() - 1, '(', ')')
+            got = [re.sub(r'\s+', ' ', x).strip() for x in re.findall(r'(?m)^\s*(\w+\((?:[^()]|\'\(\'|\'\)\')*\))\s*(?:,|>=|>>=|$)', block[r.end():rc])]
+    return [dict(id='regex-grammar/rules', ok=(got == REGEX_GRAMMAR), desc='the rule list of the regex grammar is the documented one (digit counts, primaries, postfix operators, concatenation, alternation)',
+                 detail=None if got == REGEX_GRAMMAR else ('found: %r' % (got,))[:400], line=src.line_of(m.start()) if m else None)]
